@@ -149,7 +149,10 @@ class Interp:
         for n, (T, v) in (locals_init or {}).items():
             self.scopes[0][n] = Cell(T, wrap(v, T), True)
         items = body[1] if body[0] == "block" else [body]
+        self.orphans = set()
         try:
+            if "hybrid-eager" in self.D:
+                self.run_orphans(body)
             for it in items:
                 self.stmt(it)
         except ReturnEx:
@@ -206,6 +209,35 @@ class Interp:
             return f[0] == "id" and (f[1] in self.routines or f[1] in ("get_npc",))
         return False
 
+    def run_orphans(self, body):
+        """A ?: with a compile-time constant condition is folded to its live arm, but the value-producing operations of
+        the dead arm were already queued: nothing consumes them any more, and effects without a consumer are placed at
+        the very start of the instruction.  They run once, there, whatever encloses the ?:."""
+        def walk(n):
+            if isinstance(n, tuple):
+                if n and n[0] == "cond" and is_const_expr(n[1]):
+                    try:
+                        c = self.truth(self.ev(n[1]))
+                    except (CUndefined, CUnsupported):
+                        c = None
+                    if c is not None:
+                        dead = n[3] if c else n[2]
+                        if cparse.strip_paren(dead)[0] != "stmtexpr":
+                            self.orphans.add(id(dead))
+                            keys = []
+                            self.hoist(dead, keys)
+                            for k in keys:
+                                self.hc.pop(k, None)
+                        walk(n[2] if c else n[3])
+                        return
+                for x in n:
+                    walk(x)
+            elif isinstance(n, list):
+                for x in n:
+                    walk(x)
+
+        walk(body)
+
     def hoist(self, e, keys):
         """Pre-evaluates the hybrids inside expression e (bottom-up, left to right)."""
         if not isinstance(e, tuple) or not e or not isinstance(e[0], str):
@@ -214,6 +246,8 @@ class Interp:
         if k == "cond":
             self.hoist(e[1], keys)
             for arm, want in ((e[2], True), (e[3], False)):
+                if id(arm) in getattr(self, "orphans", ()):
+                    continue  # ran at the start of the instruction
                 a = cparse.strip_paren(arm)
                 if a[0] == "stmtexpr":
                     # BRANCH(cond, statements, EMPTY): guarded by this condition only
